@@ -40,6 +40,9 @@ const A_INPLACE: &[&str] = &[" ", "a", "bc", "\n", "é", "你", "\r", "\t", "\x1
 const A_DEDENT: &[&str] = &[" ", "\t", "a", "\n", "\r\n", "b", "\u{3000}"];
 const A_INDENT: &[&str] = &[" ", "\t", "a", "\n", "\r", "é", "\u{3000}"];
 const A_UNFILL: &[&str] = &[" ", "a", "\n", "\r\n", ">", "-", "*", "é", "\r", "/", ".", ","];
+/// whole LINES as symbols: a prefix (0-3 prefix characters, changing from line to line) followed by nothing or a body, each with its line break —
+/// so that every text of <= 5 such lines is enumerated (a common indent that shrinks at the third line and is compared again at the fourth)
+const A_UNFILL_LINES: &[&str] = &["a\n", " \n", "  a\n", "   \n", "   a\n", "  -a\n", " -\n", "> a\n", ">  a\r\n", "  é"];
 const A_COLOUR_WORDS: &[&str] = &["ab", "c", "你好", "d-e", "fgh", "-"];
 /// lists of line widths for the dispatch contracts: one to four entries, with equal neighbours inside and at the end
 const WIDTH_LISTS: &[&str] = &["3", "5,9", "4,4", "2,2,9", "5,5,20", "9,3,3", "3,9,3,9", "2,2,2,7", "", "0,4"];
@@ -574,6 +577,7 @@ fn run_property(prop: &str, ctx: &mut Ctx) {
         }
         "C15" => {
             ctx.strings("C15.unfill.structural", "indents are prefixes made of prefix characters; no interior line break; line-ending detection", A_UNFILL, l(5, 7), vec![0], vec![""], c15_structural);
+            ctx.strings("C15.unfill.structural.lines", "same, every text of up to five (thorough: six) whole lines whose prefixes change from line to line", A_UNFILL_LINES, l(5, 6), vec![0], vec![""], c15_structural);
             ctx.strings_random("C15.unfill.structural.random", "same (long random texts, sampled)", false, 30, if th { 5_000_000 } else { 40_000 }, vec![0], vec![""], c15_structural);
             refill_cases(ctx, "C15.unfill.roundtrip", "unfill(fill(paragraph)) recovers text, indents, width and line ending", l(3, 5), c15_roundtrip);
         }
@@ -612,7 +616,7 @@ fn replay(path: &str) -> i32 {
         return 4;
     }
     let r = std::panic::catch_unwind(|| -> Outcome {
-        let base = contract.split(".random").next().unwrap_or(contract).trim_end_matches(".big_alphabet").trim_end_matches(".crlf").trim_end_matches(".long");
+        let base = contract.split(".random").next().unwrap_or(contract).trim_end_matches(".lines").trim_end_matches(".big_alphabet").trim_end_matches(".crlf").trim_end_matches(".long");
         match base {
             "C01.wrap.slices" => props_wrap::c01_slices(&TextCase::from_json(case)),
             "C02.wrap.first_fit_fits" => props_wrap::c02_fits(&TextCase::from_json(case)),
